@@ -7,7 +7,8 @@ blocks without `deliver_to`/`reroute`/`reject`):
 
 * `config.go`  `parseMsgPipelineRootCfg` / `parseMsgPipelineSrcCfg`  →  `loadLevel` (one generic
   function, instantiated at the source level and at the destination level: the two Go functions
-  have the same shape), `parseMsgPipelineRcptCfg` → `loadRcpt`;
+  have the same shape), `parseMsgPipelineRcptCfg` → `loadRcpt`, `parseRejectDirective` /
+  `parseEnhancedCode` → `parseReject` (on the argument texts of the directive);
 * `msgpipeline.go` `srcBlockForAddr` / `rcptBlockForAddr` → `selectBlock`, `start` → `start`,
   `AddRcpt` (incl. `reroute` targets, which are nested pipelines) → `routeF`;
 * `replace_addr.go` `rewrite`, `RewriteSender`, `RewriteRcpt`; `group.go` `groupState.Rewrite*`.
@@ -57,12 +58,82 @@ def lookupMulti (t : MTable) (k : Str) : List Str :=
   | some p => p.2
   | none => []
 
+/-- `*exterrors.SMTPError`: basic code, the three numbers of the enhanced code (the second and third are
+whatever `strconv.Atoi` made of the configured text, so they are integers) and the message.  `msg = []`
+stands for the fixed text of a reply that the pipeline itself produces (501 5.1.3, 501 5.1.7, 553 5.1.2). -/
 structure Reply where
   code : Nat
   e0 : Nat
-  e1 : Nat
-  e2 : Nat
+  e1 : Int
+  e2 : Int
+  msg : Str := []
 deriving DecidableEq, Repr
+
+/-! ### `parseRejectDirective` / `parseEnhancedCode` (config.go)
+
+The arguments of a `reject` directive are kept as the TEXT the configuration has; the functions below
+turn them into the reply exactly like the Go code: `strconv.Atoi` (optional sign, decimal digits, int64
+range), `strings.Split(s, ".")`, three parts, first number of the enhanced code 4 or 5, basic code with
+`code/100` 4 or 5 (Go's truncating division), message not empty.  Nothing is adjusted: the basic code and
+the enhanced code are independent of each other. -/
+
+/-- "Message rejected due to a local policy" -/
+def defaultRejectMsg : Str :=
+  [77,101,115,115,97,103,101,32,114,101,106,101,99,116,101,100,32,100,117,101,32,116,111,32,97,32,
+   108,111,99,97,108,32,112,111,108,105,99,121]
+
+def isDigit (c : Nat) : Bool := 48 ≤ c && c ≤ 57
+
+def digitsVal (ds : Str) : Nat := ds.foldl (fun a c => a * 10 + (c - 48)) 0
+
+/-- `strconv.Atoi` on a 64-bit platform -/
+def atoi (s : Str) : Option Int :=
+  let neg := s.head? == some 45
+  let ds := if s.head? == some 45 || s.head? == some 43 then s.drop 1 else s
+  if ds.isEmpty || !ds.all isDigit then none else
+  let v := digitsVal ds
+  if neg then (if v ≤ 2 ^ 63 then some (-(v : Int)) else none)
+  else (if v < 2 ^ 63 then some (v : Int) else none)
+
+/-- `strings.Split(s, ".")` -/
+def splitDots (s : Str) : List Str :=
+  s.foldr (fun c acc => if c == 46 then [] :: acc else
+    match acc with
+    | h :: t => (c :: h) :: t
+    | [] => [[c]]) [[]]
+
+/-- `parseEnhancedCode` -/
+def parseEnhanced (s : Str) : Option (Int × Int × Int) :=
+  match splitDots s with
+  | [a, b, c] =>
+    match atoi a, atoi b, atoi c with
+    | some x, some y, some z => some (x, y, z)
+    | _, _, _ => none
+  | _ => none
+
+/-- the `case 1:` part of `parseRejectDirective` -/
+def rejectWithCode (c : Str) (e : Nat × Int × Int) (m : Str) : Option Reply :=
+  match atoi c with
+  | none => none
+  | some code =>
+    if Int.tdiv code 100 != 4 && Int.tdiv code 100 != 5 then none
+    else some ⟨code.toNat, e.1, e.2.1, e.2.2, m⟩
+
+/-- the `case 2:` part followed by `case 1:` -/
+def rejectWithEnh (c e m : Str) : Option Reply :=
+  match parseEnhanced e with
+  | none => none
+  | some (x, y, z) =>
+    if x != 4 && x != 5 then none else rejectWithCode c (x.toNat, y, z) m
+
+/-- `parseRejectDirective`: `none` = the directive is refused -/
+def parseReject (args : List Str) : Option Reply :=
+  match args with
+  | [] => some ⟨554, 5, 7, 0, defaultRejectMsg⟩
+  | [c] => rejectWithCode c (5, 7, 0) defaultRejectMsg
+  | [c, e] => rejectWithEnh c e defaultRejectMsg
+  | [c, e, m] => if m.isEmpty then none else rejectWithEnh c e m
+  | _ => none
 
 /-- what `Start` / `AddRcpt` return when they fail -/
 inductive Refusal
@@ -202,9 +273,9 @@ def firstAnswering {β} : List (Table × β) → Str → Option (Nat × β)
     | none => if t.contains k then some (t.delay, b) else none
     | some (d, b') => if t.contains k && t.delay ≤ d then some (t.delay, b) else some (d, b')
 
-def r501_513 : Refusal := .reply ⟨501, 5, 1, 3⟩
-def r501_517 : Refusal := .reply ⟨501, 5, 1, 7⟩
-def r553_512 : Refusal := .reply ⟨553, 5, 1, 2⟩
+def r501_513 : Refusal := .reply ⟨501, 5, 1, 3, []⟩
+def r501_517 : Refusal := .reply ⟨501, 5, 1, 7, []⟩
+def r553_512 : Refusal := .reply ⟨553, 5, 1, 2, []⟩
 
 /-- `srcBlockForAddr` (nullOk = true) / `rcptBlockForAddr` (nullOk = false) after the key has been
 computed: tables in order, then the whole key, then the domain part, then the default. -/
